@@ -421,6 +421,8 @@ def simple_tree():
                                                  dict(type="blk", name=b"b", devno=0x0800), dict(type="fifo", name=b"p"), dict(type="sock", name=b"s"),
                                                  dict(type="file", name=b"hl", data=b"hardlinked", id="hl", nlink=2, frag=True)],
                xattrs={b"security.x": b"L" * 40}, index=True, ext=True)
-    root = dict(type="dir", name=b"", children=files + [big, sparse, smallblk, sub, dict(type="dir", name=b"empty", children=[]),
+    # (first inode of the table: a length field enlarged by a few hundred bytes still lies inside the table)
+    first = dict(type="slink", name=b"aaa_first", target=b"sub/lnk")
+    root = dict(type="dir", name=b"", children=[first] + files + [big, sparse, smallblk, sub, dict(type="dir", name=b"empty", children=[]),
                                                        dict(name=b"hl2", link_to="hl", type="file")], mode=0o755)
     return root
